@@ -33,10 +33,11 @@ C10 == (PB :> D)  @@ ("e0" :> Bp)
 C11 == (PA :> D)  @@ (PB :> D)
 C12 == ("e1" :> Rn)
 C13 == (PB :> Rb)
+C14 == (PA :> Rb) @@ (PB :> Rn)
 
 \* configurations in which every interface has exactly one candidate (no free choice)
 PlainCfgs == {C1, C2, C3, C4, C5, C6, C7, C10, C11, C12, C13}
-\* configurations in which two patterns with different parameters match e0
-OverlapCfgs == {C8, C9}
+\* configurations in which two patterns with different parameters match e0 (C9 also disables e1)
+OverlapCfgs == {C8, C9, C14}
 AllCfgs == PlainCfgs \cup OverlapCfgs
 =============================================================================
